@@ -14,6 +14,9 @@
 #include "base/convert.hpp"
 #include "base/utility.hpp"
 #include "base/context.hpp"
+#ifdef ICINGA2_VERIF
+#include "base/verif-hooks.hpp"
+#endif /* ICINGA2_VERIF */
 
 using namespace icinga;
 
@@ -103,6 +106,9 @@ Checkable::ProcessingResult Checkable::ProcessCheckResult(const CheckResult::Ptr
 	{
 		ObjectLock olock(this);
 		m_CheckRunning = false;
+#ifdef ICINGA2_VERIF
+		VERIF_POINT("guard.reset", this);
+#endif /* ICINGA2_VERIF */
 	}
 
 	if (!cr)
@@ -580,6 +586,9 @@ void Checkable::ExecuteCheck()
 	{
 		ObjectLock olock(this);
 
+#ifdef ICINGA2_VERIF
+		VERIF_POINT(m_CheckRunning ? "guard.busy" : "guard.enter", this);
+#endif /* ICINGA2_VERIF */
 		/* don't run another check if there is one pending */
 		if (m_CheckRunning)
 			return;
@@ -670,6 +679,9 @@ void Checkable::ExecuteCheck()
 		{
 			ObjectLock olock(this);
 			m_CheckRunning = false;
+#ifdef ICINGA2_VERIF
+			VERIF_POINT("guard.reset", this);
+#endif /* ICINGA2_VERIF */
 		}
 	}
 }
